@@ -149,3 +149,58 @@ def impl_method(facts, trait, self_ty, method, trait_args=None):
     if hit is None:
         return None
     return hit[2]
+
+
+# ---------------------------------------------------------------- helpers found by role, not by name
+def local_callees(facts, f, depth=3):
+    """crate-local functions reachable from `f` through direct calls (closures of f included), nearest first"""
+    seen = []
+    frontier = [f]
+    for _ in range(depth):
+        nxt = []
+        for g in frontier:
+            bodies = [g] + [h for h in facts.raw['fns'] if h['kind'] == 'Closure' and h['path'].startswith(g['path'] + '::{closure')]
+            for b in bodies:
+                for blk in b['body']['blocks']:
+                    t = blk['term']
+                    if t['t'] == 'call' and 'fn' in t['func']:
+                        d = t['func']['fn']['def']
+                        if d.get('local') and d.get('idx') in facts.fn_by_idx:
+                            h = facts.fn_by_idx[d['idx']]
+                            if h is not g and h not in seen and h['kind'] == 'Fn':
+                                seen.append(h)
+                                nxt.append(h)
+        frontier = nxt
+    return seen
+
+
+def sig_of(f):
+    b = f['body']
+    return [b['locals'][i]['ty'] for i in range(1, b['arg_count'] + 1)], f['ret_ty']
+
+
+def ty_is(t, what):
+    """what: 'f64' or an ADT path (type arguments ignored) or (path, first type argument path)"""
+    if what == 'f64':
+        return t.get('k') == 'float'
+    if isinstance(what, tuple):
+        return t.get('k') == 'adt' and t.get('path') == what[0] and t.get('args') and t['args'][0].get('path') == what[1]
+    return t.get('k') == 'adt' and t.get('path') == what
+
+
+def helper_by_role(facts, root, args, ret, prefer=None):
+    """the crate-local free function called (transitively) from `root` with the given signature; when several match,
+    the one named `prefer` if present, else none (ambiguous).  Names are only a tie-breaker: a renamed helper is still found."""
+    if root is None:
+        return None
+    hits = []
+    for h in local_callees(facts, root):
+        a, r = sig_of(h)
+        if len(a) == len(args) and all(ty_is(x, w) for x, w in zip(a, args)) and ty_is(r, ret):
+            hits.append(h)
+    if len(hits) == 1:
+        return hits[0]
+    for h in hits:
+        if prefer and h['path'] == prefer:
+            return h
+    return None
